@@ -94,6 +94,7 @@ struct Hist {
     if (!live(s)) return;
     bool ok = slot[s]->OK();
     if (!ok && !was_bad[s]) { OS o; o << "notok " << s; J.line(o.str()); }
+    if (ok && was_bad[s]) { OS o; o << "okagain " << s; J.line(o.str()); }
     was_bad[s] = !ok;
   }
   // generators of every disjunct of a copy (hint for the hull; polyhedra only)
